@@ -245,8 +245,10 @@ def check(ctx: Ctx) -> None:
                 if len(tup) != len(unp):
                     ctx.violation("R17.4", f"{fi.qual}:arity", fi.module, c, f"{fi2.qual} packs {len(tup)} values but {fi.qual} unpacks {len(unp)}")
                     continue
-                alias = {("wrapper_kwargs", "kwargs"), ("circuit", "original_circuit"), ("True", "auto"), ("theta_0_generator()", "theta_0"), ("Z", "Z_exp"), ("Z_exp", "Z")}
-                bad = [(norm(a), b) for a, b in zip(tup, unp) if isinstance(a, ast.Name) and a.id != b and (a.id, b) not in alias]
+                # a name packed at position i that the worker unpacks at a DIFFERENT position j is a transposition
+                # (plain renaming between packer and unpacker is fine)
+                bad = [(norm(a), b) for i, (a, b) in enumerate(zip(tup, unp))
+                       if isinstance(a, ast.Name) and a.id != b and a.id in unp and unp.index(a.id) != i]
                 if bad:
                     ctx.violation("R17.4", f"{fi.qual}:names", fi.module, c,
                                   f"{fi2.qual} packs {[x for x, _ in bad]} where {fi.qual} unpacks {[y for _, y in bad]} at the same positions")
